@@ -19,6 +19,7 @@
 #include <cstdio>
 #include <cstdlib>
 #include <cstring>
+#include <unistd.h>
 #include <fstream>
 #include <functional>
 #include <iostream>
@@ -636,7 +637,7 @@ int main(int argc, char** argv) {
     std::ifstream f(pos[1]); std::stringstream ss; ss << f.rdbuf();
     Trace t; if (!f || !parse_trace(ss.str(), t)) { fprintf(stderr, "HARNESS-ERROR cannot parse %s\n", pos[1].c_str()); return 2; }
     Outcome o = execute(t); std::cout << o.log;
-    if (o.violation) { std::cout << "VIOLATION property=" << t.prop << " replay=" << pos[1] << " oracle=" << o.violation->oracle << " engine=cpp step=" << o.violation->step << " detail=" << json_str(o.violation->detail) << "\n"; return 1; }
+    if (o.violation) { std::cout << "VIOLATION property=" << t.prop << " replay=" << pos[1] << " oracle=" << o.violation->oracle << " engine=cpp step=" << o.violation->step << " detail=" << json_str(o.violation->detail) << "\n"; std::cout.flush(); _exit(1); }
     std::cout << "REPLAY-OK no violation\n"; return 0;
   }
   if (pos[0] != "run") return 2;
@@ -667,5 +668,8 @@ int main(int argc, char** argv) {
   bool first = true; for (auto& c : counters) { if (!first) std::cout << ","; first = false; std::cout << json_str(c.first) << ":" << c.second; }
   std::cout << "},\"samples\":["; for (size_t i = 0; i < samples.size(); i++) { if (i) std::cout << ","; std::cout << json_str(samples[i]); }
   std::cout << "]}\n";
+  std::cout.flush();
+  // after a violation the driver deliberately leaked the wrappers involved: skip the leak check at exit
+  if (code) _exit(code);
   return code;
 }
